@@ -305,17 +305,20 @@ pub fn gen_rel(t: &mut Tape, o: &RelOpts) -> Rel {
         r.version = Some((op, gen_version(t, o.epochs)));
     }
     if t.chance(1, 4) {
-        let n = t.range(1, 4);
         let neg = o.negated_archs && t.chance(1, 3);
         // Policy: either all architectures are negated or none
-        r.archs = Some((0..n).map(|_| (neg, t.pick(ARCHES).to_string())).collect());
-    }
-    if t.chance(1, 4) {
-        let groups = t.range(1, 3);
-        for _ in 0..groups {
-            let terms = if o.multi_term_profiles { t.range(1, 3) } else { 1 };
-            r.profiles.push((0..terms).map(|_| (t.chance(1, 2), t.pick(PROFILES).to_string())).collect());
+        let mut a = vec![(neg, t.pick(ARCHES).to_string())];
+        while t.more(a.len(), 1, 4, 1, 3) {
+            a.push((neg, t.pick(ARCHES).to_string()));
         }
+        r.archs = Some(a);
+    }
+    while t.more(r.profiles.len(), 0, 3, 1, 5) {
+        let mut g = vec![(t.chance(1, 2), t.pick(PROFILES).to_string())];
+        while o.multi_term_profiles && t.more(g.len(), 1, 3, 1, 3) {
+            g.push((t.chance(1, 2), t.pick(PROFILES).to_string()));
+        }
+        r.profiles.push(g);
     }
     r
 }
@@ -396,17 +399,19 @@ pub fn gen_field(t: &mut Tape, o: &RelOpts) -> (RelField, String, Layout) {
         2 => Layout::L2,
         _ => Layout::L3,
     };
-    let n = t.range(0, o.max_items);
     let mut f = RelField::default();
-    for _ in 0..n {
+    while t.more(f.items.len(), 0, o.max_items, 2, 3) {
         let k = t.below(12);
         if k == 11 && o.empties {
             f.items.push(Item::Empty);
         } else if k == 10 && o.substvars {
             f.items.push(Item::Substvar(t.pick(SUBSTVARS).to_string()));
         } else {
-            let alts = if t.chance(1, 3) { t.range(1, o.max_alts) } else { 1 };
-            f.items.push(Item::Entry((0..alts).map(|_| gen_rel(t, o)).collect()));
+            let mut e = vec![gen_rel(t, o)];
+            while t.more(e.len(), 1, o.max_alts, 1, 4) {
+                e.push(gen_rel(t, o));
+            }
+            f.items.push(Item::Entry(e));
         }
     }
     // a single Empty item is the text "" or whitespace: normalise the model so that empties only
